@@ -139,3 +139,99 @@ fn vp_native_head_field_limit() {
     } } }
     println!("VP-NATIVE head_field_limit cases={}", cases);
 }
+
+/// C01 end to end through the public accessors: framing x payload size (around the 8 KiB read buffer and the 64 KiB chunk buffer) x
+/// chunking x accessor (bytes, write_to, read with schedules that include empty, 1-byte and huge reads): exactly the payload, then Ok(0)
+#[test]
+fn vp_native_response_body_end_to_end() {
+    use std::io::Read;
+    let sizes = [0usize, 1, 5, 8191, 8192, 8193, 65535, 65536, 65537, 131073, 200_000];
+    let schedules: [&[usize]; 7] = [&[1], &[0, 7], &[7, 0, 0, 3], &[64, 0, 100_000], &[70_000], &[65536], &[8192, 1]];
+    let mut cases = 0u64;
+    for &n in &sizes {
+        // all byte values, CR/LF runs and a terminator look-alike inside the payload
+        let mut payload: Vec<u8> = (0..n).map(|i| (i.wrapping_mul(31) % 256) as u8).collect();
+        if n >= 16 { payload[3..8].copy_from_slice(b"0\r\n\r\n"); payload[n - 4..].copy_from_slice(b"\r\n\r\n"); }
+        let mut wires: Vec<(String, Vec<u8>)> = Vec::new();
+        wires.push(("content-length".into(), { let mut w = format!("HTTP/1.1 200 OK\r\nContent-Length: {}\r\n\r\n", n).into_bytes(); w.extend_from_slice(&payload); w.extend_from_slice(b"NEXT RESPONSE"); w }));
+        wires.push(("close-delimited".into(), { let mut w = b"HTTP/1.1 200 OK\r\nX: y\r\n\r\n".to_vec(); w.extend_from_slice(&payload); w }));
+        for csize in [1usize, 4093, 65536, 65537, 1 << 20] {
+            if csize == 1 && n > 9000 { continue; }
+            let mut w = b"HTTP/1.1 200 OK\r\nTransfer-Encoding: chunked\r\n\r\n".to_vec();
+            for (i, c) in payload.chunks(csize).enumerate() {
+                w.extend_from_slice(match i % 3 { 0 => format!("{:x}\r\n", c.len()), 1 => format!("{:X};ext=\"v\"\r\n", c.len()), _ => format!("0{:x} \r\n", c.len()) }.as_bytes());
+                w.extend_from_slice(c); w.extend_from_slice(b"\r\n");
+            }
+            w.extend_from_slice(b"0\r\n\r\nTRAILING GARBAGE");
+            wires.push((format!("chunked by {}", csize), w));
+        }
+        for (name, wire) in &wires {
+            let req = PreparedRequest::new(Method::GET, "http://a.test/");
+            let open = || parse_response(BaseStream::mock(wire.clone()), &req, req.url()).unwrap();
+            let got = open().bytes().unwrap_or_else(|e| panic!("bytes() of a {}-byte {} body: {}", n, name, e)); cases += 1;
+            assert!(got == payload, "bytes(): {} of {} bytes delivered, {} body", got.len(), n, name);
+            let mut sink = Vec::new(); let copied = open().write_to(&mut sink).unwrap(); cases += 1;
+            assert!(sink == payload && copied == n as u64, "write_to(): {} of {} bytes, {} body", sink.len(), n, name);
+            for sched in schedules {
+                let mut r = open(); let mut out = Vec::new(); let mut i = 0usize;
+                loop {
+                    let want = sched[i % sched.len()]; i += 1;
+                    let mut b = vec![0xAAu8; want];
+                    let k = r.read(&mut b).unwrap_or_else(|e| panic!("read of {} bytes failed after {} of {} bytes, {} body, schedule {:?}: {}", want, out.len(), n, name, sched, e));
+                    assert!(k <= want);
+                    out.extend_from_slice(&b[..k]);
+                    if k == 0 && want > 0 { break; }
+                    assert!(i < 1_000_000, "no progress");
+                }
+                // the end is sticky
+                let mut b = [0u8; 8]; assert_eq!(r.read(&mut b).unwrap(), 0);
+                cases += 1;
+                assert!(out == payload, "read schedule {:?}: {} of {} bytes delivered (first difference at {:?}), {} body", sched, out.len(), n, out.iter().zip(payload.iter()).position(|(a, b)| a != b), name);
+            }
+        }
+    }
+    println!("VP-NATIVE response_body_end_to_end cases={}", cases);
+}
+
+/// C02 end to end: a Content-Length and a chunked response cut at every byte offset: the head cut is an error of parse_response, a
+/// body cut is an error of bytes()/write_to()/read (never a clean end), and what was handed out before and after the error is a
+/// prefix of the payload
+#[test]
+fn vp_native_response_truncation_end_to_end() {
+    use std::io::Read;
+    let payload = b"hello wor\r\n0\r\n\r\nld!".to_vec();
+    let mut wires: Vec<(&str, Vec<u8>, usize)> = Vec::new();   // (name, wire, end of frame)
+    { let mut w = format!("HTTP/1.1 200 OK\r\nContent-Length: {}\r\n\r\n", payload.len()).into_bytes(); w.extend_from_slice(&payload); let e = w.len(); wires.push(("content-length", w, e)); }
+    { let mut w = b"HTTP/1.1 200 OK\r\nTransfer-Encoding: chunked\r\n\r\n".to_vec();
+      for c in payload.chunks(7) { w.extend_from_slice(format!("{:x};e=1\r\n", c.len()).as_bytes()); w.extend_from_slice(c); w.extend_from_slice(b"\r\n"); }
+      w.extend_from_slice(b"0\r\n\r\n"); let e = w.len(); wires.push(("chunked", w, e)); }
+    let mut cases = 0u64;
+    for (name, wire, frame_end) in &wires {
+        let head_end = wire.windows(4).position(|w| w == b"\r\n\r\n").unwrap() + 4;
+        for cut in 0..=wire.len() {
+            let w = wire[..cut].to_vec();
+            let req = PreparedRequest::new(Method::GET, "http://a.test/");
+            let open = || parse_response(BaseStream::mock(w.clone()), &req, req.url());
+            cases += 1;
+            if cut < head_end { assert!(open().is_err(), "{} response cut at {} (inside the head) accepted", name, cut); continue; }
+            let complete = cut >= *frame_end;
+            let b = open().unwrap().bytes();
+            assert_eq!(b.is_ok(), complete, "{} response cut at {} of {}: bytes() -> {:?}", name, cut, wire.len(), b.as_ref().map(|v| v.len()));
+            if complete { assert_eq!(b.unwrap(), payload); }
+            let mut sink = Vec::new(); let wt = open().unwrap().write_to(&mut sink);
+            assert_eq!(wt.is_ok(), complete, "{} response cut at {}: write_to()", name, cut);
+            assert!(payload.starts_with(&sink), "{} response cut at {}: write_to() wrote bytes the server never sent", name, cut);
+            for size in [1usize, 5, 64] {
+                let mut r = open().unwrap(); let mut out = Vec::new(); let mut errors = 0; let mut clean = false;
+                for _ in 0..200 {
+                    let mut buf = vec![0u8; size];
+                    match r.read(&mut buf) { Ok(0) => { if errors == 0 { clean = true; } break; } Ok(k) => out.extend_from_slice(&buf[..k]), Err(_) => { errors += 1; if errors > 3 { break; } } }
+                    assert!(payload.starts_with(&out), "{} response cut at {}: read handed out bytes that are not a prefix of the payload: {:?}", name, cut, String::from_utf8_lossy(&out));
+                }
+                assert_eq!(clean, complete, "{} response cut at {} read with {}-byte buffers: clean end = {}", name, cut, size, clean);
+                if complete { assert_eq!(out, payload); }
+            }
+        }
+    }
+    println!("VP-NATIVE response_truncation_end_to_end cases={}", cases);
+}
